@@ -151,23 +151,21 @@ def r3(ctx):
 @rule("C14.R4", "users of the order resolve to these impls (best-move update, cutoff update, cutoff test)")
 def r4(ctx):
     P = ctx.P
-    want = {
-        "<chess_engine::White as chess_engine::Policy>::is_better": f"<{SCORE} as core::cmp::PartialOrd>::lt",
-        "<chess_engine::Black as chess_engine::Policy>::is_better": f"<{SCORE} as core::cmp::PartialOrd>::gt",
-        "<chess_engine::White as chess_engine::Policy>::update_cutoff": f"<{SCORE} as core::cmp::Ord>::max",
-        "<chess_engine::Black as chess_engine::Policy>::update_cutoff": f"<{SCORE} as core::cmp::Ord>::min",
-    }
-    for fn, callee in want.items():
+    # which comparison each user makes is C13.R1 / C12; here: it is made through Score's own order impls, not through a re-derived one
+    users = ["<chess_engine::White as chess_engine::Policy>::is_better", "<chess_engine::Black as chess_engine::Policy>::is_better",
+             "<chess_engine::White as chess_engine::Policy>::update_cutoff", "<chess_engine::Black as chess_engine::Policy>::update_cutoff"]
+    impls = (f"<{SCORE} as core::cmp::PartialOrd>::", f"<{SCORE} as core::cmp::Ord>::")
+    for fn in users:
         ctx.used_body(fn)
         calls = [t["f"].get("fn_args", t["f"].get("decl_args")) for _, t in P.calls(fn)]
         calls = [c for c in calls if c and ("cmp::" in c)]
-        ctx.ob(f"{fn.split('::')[1].split(' ')[0]}::{fn.rsplit('::',1)[1]}", callee in calls, f"{fn} compares scores through {calls}, expected {callee}",
-               site=P.body(fn).get("def_span"), sample={"calls": calls})
+        ctx.ob(f"{fn.split('::')[1].split(' ')[0]}::{fn.rsplit('::',1)[1]}", bool(calls) and all(c.startswith(impls) for c in calls),
+               f"{fn} compares scores through {calls}, expected the PartialOrd/Ord impls of Score", site=P.body(fn).get("def_span"), sample={"calls": calls})
     ab = P.find_fn("Engine::alphabeta", "chess_engine")
     ctx.used_body(ab)
     calls = [t["f"].get("fn_args", "") for _, t in P.calls(ab)]
-    ctx.ob("alphabeta cutoff test", f"<{SCORE} as core::cmp::PartialOrd>::le" in calls, "alphabeta's cutoff test does not go through <Score as PartialOrd>::le",
-           site=P.body(ab).get("def_span"), sample={"le": True})
+    ctx.ob("alphabeta cutoff test", any(c.startswith(impls[0]) and c.rsplit("::", 1)[1] in ("le", "ge", "lt", "gt") for c in calls),
+           "alphabeta's cutoff test does not go through <Score as PartialOrd>", site=P.body(ab).get("def_span"), sample={"cmp": True})
 
 
 # ---------------------------------------------------------------- perturbation controls
